@@ -108,6 +108,8 @@ func (g *DecoderGroup[S, T]) Decode(source S, target T) error {
 	if ok {
 		if err = cache.(Decoder[S, T]).Decode(source, target); err == nil {
 			return nil
+		} else if !errors.Is(err, ErrUnsupportedType) {
+			return err
 		}
 	}
 	for _, dec := range g.decoders {
